@@ -229,6 +229,15 @@ class SymCtx:
         else:
             neg = z3.Not(c)
             r = self.eng.check(neg)
+        if r == "sat" and self.eng.nl_uf and self.eng.uf_apps:
+            # the mismatch was found under uninterpreted mul/div: re-decide with their exact meaning
+            # (axioms for exactly the applications built on this path), fresh nlsat solver
+            axioms = list(self.eng.uf_apps.values())
+            extra = axioms + ([neg] if neg is not None else [])
+            r = self.eng.check(*extra, fresh_only=True)
+            col.refined = getattr(col, "refined", 0) + 1
+            if r == "sat":
+                neg = z3.And(*extra)
         if r == "unsat":
             col.discharged += 1
             return True
@@ -252,7 +261,11 @@ class SymCtx:
             self.col.structural += 1
             return True
         d = ta - tb
-        return self.require(label, z3.And(d <= tol, -d <= tol), f"{a!r} vs {b!r}")
+        tt = core._real(lift(tol))
+        return self.require(label, z3.And(d <= tt, -d <= tt), f"{a!r} vs {b!r}")
+
+    def sqrt(self, x):
+        return core.sym_sqrt(x)
 
     def equal(self, label, a, b):
         """deep equality of two snapshots. Shape differences are definite violations of the path;
@@ -277,10 +290,10 @@ class SymCtx:
         return a if c else b
 
     def max(self, *xs):
-        return core.sym_max(*xs)
+        return xs[0] if len(xs) == 1 else core.sym_max(*xs)
 
     def min(self, *xs):
-        return core.sym_min(*xs)
+        return xs[0] if len(xs) == 1 else core.sym_min(*xs)
 
     def abs(self, x):
         return abs(x)
